@@ -15,11 +15,18 @@ claims = {
          "package initialiser (actTrace constant). All obligations discharged by SMT for all inputs."),
    note=TRUST + "ASSUMED, not verified: go-seccomp-bpf Policy.Assemble compiles the policy correctly and x/net/bpf.Assemble is lossless (dependency code; the cBPF program itself is not interpreted yet); cmd/runprog config.cleanTrace is not under contract yet.",
    design_ref="DESIGN.md §4 C01"),
+ "C02": dict(level="proof",
+   text=("Proof part (all register values, all syscall numbers): runner/ptrace tracerHandler.Handle against a decode table taken from the system call signatures - for each of the 35 path-taking calls it decodes, exactly one policy query (two for rename/renameat/renameat2/linkat) is logged in ghost Q with the access class of the call "
+         "(open/openat: write whenever O_ACCMODE != 0 or O_CREAT or O_TRUNC; openat2: write unless open_how could be read and says read-only) and the path kres(pid, dirfd, string at the path register), where the directory descriptor is read as the kernel reads it (C int: low 32 bits, sign-extended) from the right register; "
+         "absPath/absPathAt choose the base exactly by the kernel rule (absolute: /, AT_FDCWD: cwd, else the descriptor's directory, unresolvable -> empty path); procfs references go to the procfs policy. Found and fixed: dirfd decoded from the whole 64-bit register; symlinkat decoded with mkdirat's argument positions. "
+         "Bounded part (labelled bounded): the symlink walk resolveTraceePath itself is compared with the kernel on a real tree for every path up to 4 (thorough: 5) components; it exposes two genuine defects kept as known findings (lexical '..' before symlink expansion; final symlink followed for no-follow calls)."),
+   note=TRUST + "decode table (spec in the Handle contract) transcribed from the man pages; GetString/tracee memory, /proc readlinks, ToSyscallName table and readOpenHowFlags are trusted/abstracted; calls the handler does not decode (mkdir, rmdir, creat, truncate, chown, utimes ...) go to the syscall-name policy and are outside the statement's 'path it presents'; the resolver is only bounded-checked, never counted as proved.",
+   design_ref="DESIGN.md §4 C02"),
  "C03": dict(level="proof",
    text=("Tracer side: handleTrap (ban => exactly one register write with syscall number -1 for that pid, kill => error, allow => no write), handle (a non-Normal verdict is returned without continuing the tracee; "
          "every PtraceCont of a stopped pid happens after its options word was installed; option word = SECCOMP|EXITKILL|FORK|CLONE|VFORK|EXEC), setPtraceOption, skipSyscall, SetReturnValue. "
          "Child side (forkAndExecInChild, model K): when ptrace and a filter are both requested the child has called TRACEME and stopped itself before the filter is loaded."),
-   note=TRUST + "kernel model T/K: a stop with syscall number -1 skips the call; options are inherited by auto-attached children; SIGSYS on filter kill. runner/ptrace Handle (verdict -> registers) is not under contract yet.",
+   note=TRUST + "kernel model T/K: a stop with syscall number -1 skips the call; options are inherited by auto-attached children; SIGSYS on filter kill. runner/ptrace Handle: verdict in {allow, ban, kill}, ban sets the return register to -BanRet and nothing else touches it, combineTraceActions (kill dominates ban dominates allow), invalid syscall number => kill.",
    design_ref="DESIGN.md §4 C03"),
  "C04": dict(level="proof",
    text=("One contract on forkexec.forkAndExecInChild with a symbolic *Runner (all option combinations at once) over ghost child state K: at both exec call sites and in the ETXTBSY retry loop "
@@ -40,7 +47,7 @@ claims = {
  "C07": dict(level="proof",
    text=("Child side of the sync gate (forkAndExecInChild, model K): exec is reachable with a sync callback configured only after the ready word was written to and the ack read from the sync socket (same open file), in that order; "
          "every childExitError call names a location whose step class contains the system call that just failed, with the index of the mount/rlimit entry; childExitError* write {err, location, index} to the sync socket and never return."),
-   note=TRUST + "kernel model K. Parent side (syncWithChild/Start: callback strictly between ready and ack, kill+reap on failure) and container syncPid not under contract yet.",
+   note=TRUST + "kernel model K (child) and parent-side model of Kill/Wait4/Close/Socketpair. Parent side: syncWithChild/Start invoke the callback at most once, only after the ready word was read and before the ack is written, with the pid fork returned; on a callback error or a child-reported error handleChildFailed kills and reaps that pid before returning a non-nil error. ASSUMED (A-K4): reads on the sync socket return 0, 8 or 24 bytes (readChildErr abstracts). Container handleExecve$1 (syncPid relay) is under contract for the protocol state only; that the relayed pid is the host-side pid is kernel behaviour (SCM_CREDENTIALS).",
    design_ref="DESIGN.md §4 C07"),
  "C08": dict(level="proof",
    text=("PrepareRLimit: length and CPU/CORE entries exact for all records (positions of the middle entries not yet, see note); ptracer.checkUsage: time = utime in ns, memory = maxrss*1024, MLE over TLE over Normal for all 64-bit values."),
@@ -49,11 +56,25 @@ claims = {
  "C09": dict(level="proof",
    text=("For all 2^32 wait words: container.convertReply and ptracer handle/trace equal the README status table (main process); an exit or fatal signal of a secondary process leaves the run going with status Normal; "
          "Runner Error only with a non-empty text. syscall/unix WaitStatus methods are verified from the toolchain source, not trusted."),
-   note=TRUST + "fmt.Sprintf / error.Error non-empty-text contracts assumed. unshare.Run wait loop and host convertReplyResult not under contract yet.",
+   note=TRUST + "fmt.Sprintf / error.Error non-empty-text contracts assumed. Host container.convertReplyResult/errResult are under contract (status copied through, Runner Error carries text). unshare.Run wait loop not under contract yet.",
    design_ref="DESIGN.md §4 C09"),
+ "C10": dict(level="proof",
+   text=("Typestate proof of both ends of the RPC against one protocol automaton (spec/protocol.contracts; ghost P.st for the container init, H.st for the host; states idle/awaiting-reply/exec-sync/.../LOST). "
+         "Container side: serve, recvCmd, handleCmd and every handler (ping, conf, open, delete, reset, symlink, execve incl. the sync closure and handleExecveStarted) send exactly the replies the automaton allows for the command in progress on every path, including all error paths "
+         "(found and fixed: a panic on an empty argument list; exec failing after sync left the kill command unread). Host side: sendCmd/recvReply/recvAckReply and Ping, conf, Open, Delete, Reset, Symlink, Execve (+execveSyncKill, waitForDone) start and end in idle-or-LOST, consume exactly the replies of their own command, "
+         "and once LOST every later call returns an error without receiving. Duality lemmas (host send/recv steps mirror container recv/send steps; every exec path ends idle) are discharged by SMT."),
+   note=TRUST + "The two ends are verified separately against the shared automaton; that the socket delivers messages in order is C19 (assumed here). Channel roles (recvCh/done) are assumed contracts; the user's sync callback is assumed not to touch the socket. Goroutine interleavings inside Execve are abstracted by the channel-role contracts. 'fails promptly instead of hanging' is proved as 'returns an error without a blocking receive', not as a time bound.",
+   design_ref="DESIGN.md §4 C10"),
+ "C14": dict(level="proof",
+   text=("Index alignment of batch file operations, both ends, for all batch sizes and all success/failure mixtures: container handleOpen/handleDelete/handleSymlink produce one error slot per item (loop invariants), the number of descriptors sent equals the number of empty error slots (rank), "
+         "host Open assigns the rank(k)-th received descriptor to the k-th result exactly when slot k is empty and returns error-only results otherwise; Symlink/Delete results align with the request; descriptor count mismatches end in an error, never a mis-assignment. "
+         "Every os.OpenFile in handleOpen is called with exactly the k-th request's path, flags and mode, and only directly after checkOpenTargetFile of that same path returned nil. rank is a recursive heap-dependent spec function; its frame and bounds lemmas are proved by induction (step by SMT)."),
+   note=TRUST + "checkOpenTargetFile itself (lstat says regular or absent) is abstracted by its ghost effect; the window between lstat and open is not closed by the code (no program runs while the container serves Open, which is a C10 typestate fact, not re-proved here); that the container fills descriptor slots in request order follows from the append order only (len(fds) == rank invariant), the identity of each descriptor is kernel state. Induction principle for rank_frame/rank_bounds applied outside the solver (listed as assumption).",
+   design_ref="DESIGN.md §4 C14"),
  "C12": dict(level="proof",
-   text=("Partial (process side of the ptrace runner only): the deferred clean-up of Tracer.trace issues kill(-pgid, SIGKILL) and then reaps until wait4 fails, on every return path."),
-   note=TRUST + "descriptor ownership (FD model) and the container/unshare runners are not under contract yet; that everything is dead afterwards is kernel behaviour.",
+   text=("Partial. Processes: the deferred clean-up of Tracer.trace issues kill(-pgid, SIGKILL) and then reaps until wait4 fails, on every return path; forkexec Start/syncWithChild/handleChildFailed kill and reap the child on every failing path (parent-side model). "
+         "Descriptors: forkexec Start closes both ends of the sync socketpair on every path; container handleOpen/handleExecve close every file they opened after sending (closeFds over all entries) and on every error path; host Open closes all received descriptors when it fails part-way (Open$1)."),
+   note=TRUST + "goroutine counts and the unshare runner are not under contract; unixsocket RecvMsg descriptor ownership is C19 (not claimed); that everything is dead afterwards is kernel behaviour.",
    design_ref="DESIGN.md §4 C12"),
  "C15": dict(level="proof",
    text=("No-panic/termination obligations for tracer-side code under an unconstrained tracee: clen, hasNull, vmRead, vmReadStr, GetString, Context accessors, handle, handleTrap, trace (Runner Error only on the two launcher-side causes), IsInSetSmart/dirname; "
